@@ -11,8 +11,7 @@
         can move DOWN; else nothing happens
    and the table writer: a committed insert of id stores id+1 in the branch's table (never lowered by
    deletes); a rolled-back insert stores nothing.
-   Abstracted: DROP / re-CREATE of a table (DropRelation: max over the other working sets; observed:
-   the sequence continues while another branch still has the table), type bounds (observed: the value
+   Abstracted: type bounds (observed: the value
    after the column maximum is refused with "out of range", no wrap), deletes. *)
 From Coq Require Import NArith List Bool.
 Import ListNotations.
@@ -25,7 +24,11 @@ Inductive sop :=
 | SRollbackT
 | SSwitch (b : N)              (* COMMIT, check out branch b *)
 | SRestart                     (* the server is restarted (all sessions have committed or rolled back) *)
-| SAlter (t : N) (n : N).      (* COMMIT; ALTER TABLE t AUTO_INCREMENT = n; COMMIT *)
+| SAlter (t : N) (n : N)       (* COMMIT; ALTER TABLE t AUTO_INCREMENT = n; COMMIT *)
+| SRecreate (t : N).           (* COMMIT; DROP TABLE t; CREATE TABLE t (.. AUTO_INCREMENT ..); COMMIT on the session's branch.
+                                  DropRelation: tracker := max over the OTHER working sets that still have the table;
+                                  AddNewRelation(1): tracker := max(tracker, 1) — the sequence continues while another
+                                  branch has the table and restarts at 1 when none has *)
 
 Definition upd2 (f : N -> N -> N) (a b v : N) : N -> N -> N :=
   fun a' b' => if (a' =? a) && (b' =? b) then v else f a' b'.
@@ -86,6 +89,13 @@ Section Cfg.
         let c := N.max n (max_over (fun b' => if b' =? b then 0 else bv b' t) branches) in
         (None, c <? cur w1 t, {| cur := upd1 (cur w1) t c; bval := bv; bmax := bmax w1; sbr := sbr w1; pend := pend w1 |})
       else (None, false, w1)
+    | SRecreate t =>
+      let w1 := commit_s s w in
+      let b := sbr w1 s in
+      let bv := upd2 (bval w1) b t 0 in
+      let c := N.max 1 (max_over (fun b' => bv b' t) branches) in
+      (None, c <? cur w1 t,
+       {| cur := upd1 (cur w1) t c; bval := bv; bmax := upd2 (bmax w1) b t 0; sbr := sbr w1; pend := pend w1 |})
     end.
 
   Fixpoint srun (sc : list (N * sop)) (w : srv) : list (option N * bool) * srv :=
